@@ -35,6 +35,8 @@ def run(ctx, rep):
     scalarmult(rep, prog)
     kx(rep, prog)
     beforenm(rep, prog)
+    n_roles = cm.role_consistency(rep, prog)
+    rep.floor("key-role call edges", n_roles, 40)
 
 
 def scalarmult(rep, prog):
